@@ -1,6 +1,5 @@
-(** C01: every term the machine marks Proved is valid in every model (semantic atoms), by an
-    invariant over all instruction streams.  Restricted (ghost guard [g_evar_plugs_only]) to streams
-    whose ESubst instructions have element-variable plugs; see Props/C01.v for the statement. *)
+(** C01: every term the machine marks Proved is valid in every model (semantic atoms for opaque
+    nodes), by an invariant over ALL instruction streams; see Props/C01.v for the statement. *)
 From Coq Require Import NArith List Bool Lia Classical_Prop.
 From Pi2 Require Import ML.Syntax ML.Subst ML.Machine ML.Facts ML.Sem.
 Import ListNotations.
@@ -20,7 +19,7 @@ Lemma prop2_mvalid : mvalid ax_prop2.
 Proof. intros D a s av _ v d; simpl; auto. Qed.
 Lemma prop3_mvalid : mvalid ax_prop3.
 Proof. intros D a s av Hav v d. unfold ax_prop3, neg, phi.
-  change (((av 0 [] [] [] [] [] v d -> eval D a s av bot v d) -> eval D a s av bot v d) -> av 0 [] [] [] [] [] v d).
+  change (((av (MVar 0 [] [] [] [] []) v d -> eval D a s av bot v d) -> eval D a s av bot v d) -> av (MVar 0 [] [] [] [] []) v d).
   intros H. apply NNPP. intro Nn. apply (bot_empty D a s av v d). apply H. intro Hp. exfalso. exact (Nn Hp). Qed.
 Lemma quantifier_mvalid : mvalid ax_quantifier.
 Proof. intros D a s av _ v d. simpl. intros H. eexists. exact H. Qed.
@@ -42,129 +41,37 @@ Hypothesis G_es_ex : g_esubst_exists_capture g = true.
 Hypothesis G_inst : g_inst_constraints g = true.
 Hypothesis G_gen : g_gen_fresh g = true.
 Hypothesis G_mp : g_mp_antecedent g = true.
-Hypothesis G_evp : g_evar_plugs_only g = true.
 
 Lemma substitution_mvalid p X plug q : mvalid p -> apply_ssubst g p X plug = Some q -> mvalid q.
 Proof. intros H Hs D a s av Hav v d.
   apply (ssubst_sound D a s av Hav g G_ss_ex G_ss_mu p X plug q v Hs d). apply H, Hav. Qed.
 
-Lemma instantiate_mvalid p vars plugs q : mvalid p -> evp p = true -> inst g p vars plugs = Some q -> mvalid q.
-Proof. intros H Hd Hi D a s av Hav v d.
-  apply (inst_sound D a s g G_ss_ex G_ss_mu G_es_ex G_inst av vars plugs Hav p q v Hd Hi d).
-  apply H. apply av_upd_ok, Hav. Qed.
+Lemma instantiate_mvalid p vars plugs q : mvalid p -> inst g p vars plugs = Some q -> mvalid q.
+Proof. intros H Hi D a s av Hav v d.
+  apply (inst_sound D a s g G_ss_ex G_ss_mu G_es_ex G_inst av vars plugs Hav p q v Hi d).
+  apply H. apply av_upd_ok; assumption. Qed.
 
-(** [evp] is preserved by the three operations *)
-Lemma evp_esubst p : forall x z q, evp p = true -> apply_esubst g p x (EVar z) = Some q -> evp q = true.
-Proof.
-  induction p as [n|n|n|l IHl r IHr|l IHl r IHr|y q IHq|Y q IHq|id ef sf pos neg holes|q IHq y plug IHplug|q IHq Y plug IHplug];
-    intros x z q0 He Hs; simpl in Hs, He.
-  - inversion Hs; subst. destruct (N.eqb n x); reflexivity.
-  - inversion Hs; subst; reflexivity.
-  - inversion Hs; subst; reflexivity.
-  - apply andb_true_iff in He as [E1 E2].
-    destruct (apply_esubst g l x (EVar z)) eqn:El; [|discriminate]. destruct (apply_esubst g r x (EVar z)) eqn:Er; [|discriminate].
-    inversion Hs; subst. simpl. rewrite (IHl _ _ _ E1 El), (IHr _ _ _ E2 Er). reflexivity.
-  - apply andb_true_iff in He as [E1 E2].
-    destruct (apply_esubst g l x (EVar z)) eqn:El; [|discriminate]. destruct (apply_esubst g r x (EVar z)) eqn:Er; [|discriminate].
-    inversion Hs; subst. simpl. rewrite (IHl _ _ _ E1 El), (IHr _ _ _ E2 Er). reflexivity.
-  - destruct (N.eqb y x); [inversion Hs; subst; exact He|].
-    destruct (chk _ _); [|discriminate]. destruct (apply_esubst g q x (EVar z)) eqn:Eq; [|discriminate].
-    inversion Hs; subst. simpl. eapply IHq; eassumption.
-  - destruct (chk _ _); [|discriminate]. destruct (apply_esubst g q x (EVar z)) eqn:Eq; [|discriminate].
-    inversion Hs; subst. simpl. eapply IHq; eassumption.
-  - inversion Hs; subst. reflexivity.
-  - inversion Hs; subst. simpl. simpl in He. rewrite He. reflexivity.
-  - inversion Hs; subst. simpl. simpl in He. rewrite He. reflexivity.
-Qed.
-
-Lemma evp_ssubst p : forall X plug q, evp p = true -> evp plug = true -> apply_ssubst g p X plug = Some q -> evp q = true.
-Proof.
-  induction p as [n|n|n|l IHl r IHr|l IHl r IHr|y q IHq|Y q IHq|id ef sf pos neg holes|q IHq y plug IHplug|q IHq Y plug IHplug];
-    intros X pl q0 He Hp Hs; simpl in Hs, He.
-  - inversion Hs; subst; reflexivity.
-  - inversion Hs; subst. destruct (N.eqb n X); [exact Hp | reflexivity].
-  - inversion Hs; subst; reflexivity.
-  - apply andb_true_iff in He as [E1 E2].
-    destruct (apply_ssubst g l X pl) eqn:El; [|discriminate]. destruct (apply_ssubst g r X pl) eqn:Er; [|discriminate].
-    inversion Hs; subst. simpl. rewrite (IHl _ _ _ E1 Hp El), (IHr _ _ _ E2 Hp Er). reflexivity.
-  - apply andb_true_iff in He as [E1 E2].
-    destruct (apply_ssubst g l X pl) eqn:El; [|discriminate]. destruct (apply_ssubst g r X pl) eqn:Er; [|discriminate].
-    inversion Hs; subst. simpl. rewrite (IHl _ _ _ E1 Hp El), (IHr _ _ _ E2 Hp Er). reflexivity.
-  - destruct (chk _ _); [|discriminate]. destruct (apply_ssubst g q X pl) eqn:Eq; [|discriminate].
-    inversion Hs; subst. simpl. eapply IHq; eassumption.
-  - destruct (N.eqb Y X); [inversion Hs; subst; exact He|].
-    destruct (chk _ _); [|discriminate]. destruct (apply_ssubst g q X pl) eqn:Eq; [|discriminate].
-    inversion Hs; subst. simpl. eapply IHq; eassumption.
-  - inversion Hs; subst. simpl. exact Hp.
-  - inversion Hs; subst. simpl. simpl in He. rewrite He, Hp. reflexivity.
-  - inversion Hs; subst. simpl. simpl in He. rewrite He, Hp. reflexivity.
-Qed.
-
-Lemma lookup_In id vars : forall plugs pl, lookup id vars plugs = Some (Some pl) -> In pl plugs.
-Proof.
-  induction vars as [|v vs IH]; intros plugs pl; simpl; [discriminate|].
-  destruct (N.eqb v id).
-  - destruct plugs as [|p ps]; simpl; [discriminate|]. intros H; inversion H; subst. left; reflexivity.
-  - destruct plugs as [|p ps]; simpl; intros H; apply IH in H; [destruct H | right; exact H].
-Qed.
-
-Lemma evp_inst vars plugs (Hpl: Forall (fun p => evp p = true) plugs) p :
-  forall q, evp p = true -> inst g p vars plugs = Some q -> evp q = true.
-Proof.
-  induction p as [n|n|n|l IHl r IHr|l IHl r IHr|y q IHq|Y q IHq|id ef sf pos neg holes|q IHq y plug IHplug|q IHq Y plug IHplug];
-    intros q0 He Hi; simpl in Hi, He.
-  - inversion Hi; subst; reflexivity.
-  - inversion Hi; subst; reflexivity.
-  - inversion Hi; subst; reflexivity.
-  - apply andb_true_iff in He as [E1 E2].
-    destruct (inst g l vars plugs) eqn:El; [|discriminate]. destruct (inst g r vars plugs) eqn:Er; [|discriminate].
-    inversion Hi; subst. simpl. rewrite (IHl _ E1 eq_refl), (IHr _ E2 eq_refl). reflexivity.
-  - apply andb_true_iff in He as [E1 E2].
-    destruct (inst g l vars plugs) eqn:El; [|discriminate]. destruct (inst g r vars plugs) eqn:Er; [|discriminate].
-    inversion Hi; subst. simpl. rewrite (IHl _ E1 eq_refl), (IHr _ E2 eq_refl). reflexivity.
-  - destruct (inst g q vars plugs) eqn:Eq; [|discriminate]. inversion Hi; subst. simpl. apply IHq; auto.
-  - destruct (inst g q vars plugs) eqn:Eq; [|discriminate]. inversion Hi; subst. simpl. apply IHq; auto.
-  - destruct (lookup id vars plugs) as [[pl|]|] eqn:El.
-    + destruct (chk _ _); [|discriminate]. inversion Hi; subst.
-      apply lookup_In in El. rewrite Forall_forall in Hpl. apply Hpl, El.
-    + discriminate.
-    + inversion Hi; subst. reflexivity.
-  - apply andb_true_iff in He as [E1 E2]. destruct plug as [z| | | | | | | | |]; try discriminate.
-    destruct (touches q vars || touches (EVar z) vars).
-    + destruct (inst g q vars plugs) eqn:Eq; [|discriminate]. simpl in Hi.
-      eapply evp_esubst; [|exact Hi]. apply IHq; auto.
-    + inversion Hi; subst. simpl. rewrite E1. reflexivity.
-  - apply andb_true_iff in He as [E1 E2].
-    destruct (touches q vars || touches plug vars).
-    + destruct (inst g q vars plugs) eqn:Eq; [|discriminate]. destruct (inst g plug vars plugs) eqn:Ep; [|discriminate].
-      eapply evp_ssubst; [| |exact Hi]; [apply IHq | apply IHplug]; auto.
-    + inversion Hi; subst. simpl. rewrite E1, E2. reflexivity.
-Qed.
-
-(** the invariant *)
-Definition tok (t:term) : Prop :=
-  match t with TPat p => evp p = true | TProved p => evp p = true /\ mvalid p end.
+(** the invariant: every term tagged Proved (stack or memory) is valid *)
+Definition tok (t:term) : Prop := match t with TPat _ => True | TProved p => mvalid p end.
 Definition J (st:state) : Prop := Forall tok (stack st) /\ Forall tok (memory st).
 
-Lemma pop_pat_J s p s' : Forall tok s -> pop_pat s = Some (p, s') -> evp p = true /\ Forall tok s'.
+Lemma pop_pat_J s p s' : Forall tok s -> pop_pat s = Some (p, s') -> Forall tok s'.
+Proof. destruct s as [|[q|q] s0]; simpl; intros H E; try discriminate. inversion E; subst. inversion H; subst. assumption. Qed.
+Lemma pop_proved_J s p s' : Forall tok s -> pop_proved s = Some (p, s') -> mvalid p /\ Forall tok s'.
 Proof. destruct s as [|[q|q] s0]; simpl; intros H E; try discriminate. inversion E; subst. inversion H; subst. split; assumption. Qed.
-Lemma pop_proved_J s p s' : Forall tok s -> pop_proved s = Some (p, s') -> (evp p = true /\ mvalid p) /\ Forall tok s'.
-Proof. destruct s as [|[q|q] s0]; simpl; intros H E; try discriminate. inversion E; subst. inversion H; subst. split; assumption. Qed.
-
 Lemma take_ids_J strict n : forall bs s ids plugs r s', Forall tok s ->
-  take_ids strict n bs s = Some (ids, plugs, r, s') -> Forall (fun p => evp p = true) plugs /\ Forall tok s'.
+  take_ids strict n bs s = Some (ids, plugs, r, s') -> Forall tok s'.
 Proof.
   induction n as [|n IH]; intros bs s ids plugs r s' Hs; simpl.
-  - intros H; inversion H; subst. split; [constructor | exact Hs].
+  - intros H; inversion H; subst. exact Hs.
   - destruct bs as [|b bs].
-    + destruct strict; [discriminate|]. intros H; inversion H; subst. split; [constructor | exact Hs].
+    + destruct strict; [discriminate|]. intros H; inversion H; subst. exact Hs.
     + destruct (pop_pat s) as [[p s1]|] eqn:Ep; [|discriminate].
       destruct (take_ids strict n bs s1) as [[[[i pl] r'] s'']|] eqn:E; [|discriminate].
-      intros H; inversion H; subst. destruct (pop_pat_J _ _ _ Hs Ep) as [Hp Hs1].
-      destruct (IH _ _ _ _ _ _ Hs1 E) as [H1 H2]. split; [constructor; assumption | exact H2].
+      intros H; inversion H; subst. eapply IH; [eapply pop_pat_J; eassumption | exact E].
 Qed.
 
-Lemma evp_phi n : evp (phi n) = true. Proof. reflexivity. Qed.
+Ltac pushP := split; [constructor; [exact I | assumption] | assumption].
 
 (** one instruction preserves the invariant.  [Hpub]: a pattern published in the Gamma phase is an
     axiom of the theory and is assumed valid. *)
@@ -174,77 +81,69 @@ Lemma step_i_J ph i bs st bs' st' :
   J st'.
 Proof.
   intros [Hs Hm] E Hpub. destruct i; simpl in E.
-  - (* EVar *) destruct bs as [|id r]; [discriminate|]. inversion E; subst. split; [constructor; [reflexivity|exact Hs] | exact Hm].
-  - destruct bs as [|id r]; [discriminate|]. inversion E; subst. split; [constructor; [reflexivity|exact Hs] | exact Hm].
-  - destruct bs as [|id r]; [discriminate|]. inversion E; subst. split; [constructor; [reflexivity|exact Hs] | exact Hm].
-  - (* Imp *) destruct (pop_pat (stack st)) as [[r0 s1]|] eqn:E1; [|discriminate].
+  - destruct bs as [|id r]; [discriminate|]. inversion E; subst. pushP.
+  - destruct bs as [|id r]; [discriminate|]. inversion E; subst. pushP.
+  - destruct bs as [|id r]; [discriminate|]. inversion E; subst. pushP.
+  - destruct (pop_pat (stack st)) as [[r0 s1]|] eqn:E1; [|discriminate].
     destruct (pop_pat s1) as [[l0 s2]|] eqn:E2; [|discriminate]. inversion E; subst.
-    destruct (pop_pat_J _ _ _ Hs E1) as [Hr H1]. destruct (pop_pat_J _ _ _ H1 E2) as [Hl H2].
-    split; [constructor; [simpl; rewrite Hl, Hr; reflexivity | exact H2] | exact Hm].
-  - (* App *) destruct (pop_pat (stack st)) as [[r0 s1]|] eqn:E1; [|discriminate].
+    pose proof (pop_pat_J _ _ _ (pop_pat_J _ _ _ Hs E1) E2). pushP.
+  - destruct (pop_pat (stack st)) as [[r0 s1]|] eqn:E1; [|discriminate].
     destruct (pop_pat s1) as [[l0 s2]|] eqn:E2; [|discriminate]. inversion E; subst.
-    destruct (pop_pat_J _ _ _ Hs E1) as [Hr H1]. destruct (pop_pat_J _ _ _ H1 E2) as [Hl H2].
-    split; [constructor; [simpl; rewrite Hl, Hr; reflexivity | exact H2] | exact Hm].
-  - (* Mu *) destruct bs as [|id r]; [discriminate|].
+    pose proof (pop_pat_J _ _ _ (pop_pat_J _ _ _ Hs E1) E2). pushP.
+  - destruct bs as [|id r]; [discriminate|].
     destruct (pop_pat (stack st)) as [[q s1]|] eqn:E1; [|discriminate].
     destruct (pat_positive q id); [|discriminate]. inversion E; subst.
-    destruct (pop_pat_J _ _ _ Hs E1) as [Hq H1]. split; [constructor; [exact Hq | exact H1] | exact Hm].
-  - (* Ex *) destruct bs as [|id r]; [discriminate|].
+    pose proof (pop_pat_J _ _ _ Hs E1). pushP.
+  - destruct bs as [|id r]; [discriminate|].
     destruct (pop_pat (stack st)) as [[q s1]|] eqn:E1; [|discriminate]. inversion E; subst.
-    destruct (pop_pat_J _ _ _ Hs E1) as [Hq H1]. split; [constructor; [exact Hq | exact H1] | exact Hm].
-  - (* MVar *) destruct bs as [|id r0]; [discriminate|].
+    pose proof (pop_pat_J _ _ _ Hs E1). pushP.
+  - destruct bs as [|id r0]; [discriminate|].
     destruct (read_vec r0) as [[ef r1]|]; [|discriminate]. destruct (read_vec r1) as [[sf r2]|]; [|discriminate].
     destruct (read_vec r2) as [[ps r3]|]; [|discriminate]. destruct (read_vec r3) as [[ng r4]|]; [|discriminate].
     destruct (read_vec r4) as [[hs r5]|]; [|discriminate].
-    match type of E with (if ?c then _ else _) = _ => destruct c; [|discriminate] end. inversion E; subst.
-    split; [constructor; [reflexivity | exact Hs] | exact Hm].
-  - (* ESub *) destruct bs as [|x r]; [discriminate|].
+    match type of E with (if ?c then _ else _) = _ => destruct c; [|discriminate] end. inversion E; subst. pushP.
+  - destruct bs as [|x r]; [discriminate|].
     destruct (pop_pat (stack st)) as [[p s1]|] eqn:E1; [|discriminate].
     destruct (pop_pat s1) as [[plug s2]|] eqn:E2; [|discriminate].
     match type of E with (if ?c then _ else _) = _ => destruct c; [|discriminate] end.
-    rewrite G_evp in E. simpl in E. destruct (is_evar plug) eqn:Ev; [|discriminate]. inversion E; subst.
-    destruct (pop_pat_J _ _ _ Hs E1) as [Hp H1]. destruct (pop_pat_J _ _ _ H1 E2) as [Hpl H2].
-    split; [constructor; [|exact H2] | exact Hm]. simpl. rewrite Hp. destruct plug; try discriminate. reflexivity.
-  - (* SSub *) destruct bs as [|x r]; [discriminate|].
+    destruct (chk _ _); [|discriminate]. inversion E; subst.
+    pose proof (pop_pat_J _ _ _ (pop_pat_J _ _ _ Hs E1) E2). pushP.
+  - destruct bs as [|x r]; [discriminate|].
     destruct (pop_pat (stack st)) as [[p s1]|] eqn:E1; [|discriminate].
     destruct (pop_pat s1) as [[plug s2]|] eqn:E2; [|discriminate].
     match type of E with (if ?c then _ else _) = _ => destruct c; [|discriminate] end. inversion E; subst.
-    destruct (pop_pat_J _ _ _ Hs E1) as [Hp H1]. destruct (pop_pat_J _ _ _ H1 E2) as [Hpl H2].
-    split; [constructor; [|exact H2] | exact Hm]. simpl. rewrite Hp, Hpl. reflexivity.
-  - inversion E; subst. split; [constructor; [split; [reflexivity | exact prop1_mvalid] | exact Hs] | exact Hm].
-  - inversion E; subst. split; [constructor; [split; [reflexivity | exact prop2_mvalid] | exact Hs] | exact Hm].
-  - inversion E; subst. split; [constructor; [split; [reflexivity | exact prop3_mvalid] | exact Hs] | exact Hm].
-  - inversion E; subst. split; [constructor; [split; [reflexivity | exact quantifier_mvalid] | exact Hs] | exact Hm].
-  - inversion E; subst. split; [constructor; [split; [reflexivity | exact existence_mvalid] | exact Hs] | exact Hm].
+    pose proof (pop_pat_J _ _ _ (pop_pat_J _ _ _ Hs E1) E2). pushP.
+  - inversion E; subst. split; [constructor; [exact prop1_mvalid | exact Hs] | exact Hm].
+  - inversion E; subst. split; [constructor; [exact prop2_mvalid | exact Hs] | exact Hm].
+  - inversion E; subst. split; [constructor; [exact prop3_mvalid | exact Hs] | exact Hm].
+  - inversion E; subst. split; [constructor; [exact quantifier_mvalid | exact Hs] | exact Hm].
+  - inversion E; subst. split; [constructor; [exact existence_mvalid | exact Hs] | exact Hm].
   - (* MP *) destruct (pop_proved (stack st)) as [[p2 s1]|] eqn:E1; [|discriminate].
     destruct (pop_proved s1) as [[[] s2]|] eqn:E2; try discriminate.
     rewrite G_mp in E. simpl in E. destruct (pat_eqb l p2) eqn:Eq; [|discriminate]. inversion E; subst.
     apply pat_eqb_eq in Eq. subst.
-    destruct (pop_proved_J _ _ _ Hs E1) as [[Hp2 Vp2] H1]. destruct (pop_proved_J _ _ _ H1 E2) as [[Himp Vimp] H2].
-    simpl in Himp. apply andb_true_iff in Himp as [_ Hr].
-    split; [constructor; [split; [exact Hr | eapply mp_mvalid; eassumption] | exact H2] | exact Hm].
+    destruct (pop_proved_J _ _ _ Hs E1) as [Vp2 H1]. destruct (pop_proved_J _ _ _ H1 E2) as [Vimp H2].
+    split; [constructor; [eapply mp_mvalid; eassumption | exact H2] | exact Hm].
   - (* Gen *) destruct (pop_proved (stack st)) as [[[] s1]|] eqn:E1; try discriminate.
     destruct bs as [|x rest]; [discriminate|].
     rewrite G_gen in E. simpl in E. destruct (e_fresh r x) eqn:Ef; [|discriminate]. inversion E; subst.
-    destruct (pop_proved_J _ _ _ Hs E1) as [[Himp Vimp] H1].
-    split; [constructor; [split; [exact Himp | apply gen_mvalid; assumption] | exact H1] | exact Hm].
+    destruct (pop_proved_J _ _ _ Hs E1) as [Vimp H1].
+    split; [constructor; [apply gen_mvalid; assumption | exact H1] | exact Hm].
   - (* Substitution *) destruct bs as [|X rest]; [discriminate|].
     destruct (pop_proved (stack st)) as [[p s1]|] eqn:E1; [|discriminate].
     destruct (pop_pat s1) as [[plug s2]|] eqn:E2; [|discriminate].
     destruct (apply_ssubst g p X plug) as [q|] eqn:Es; [|discriminate]. inversion E; subst.
-    destruct (pop_proved_J _ _ _ Hs E1) as [[Hp Vp] H1]. destruct (pop_pat_J _ _ _ H1 E2) as [Hpl H2].
-    split; [constructor; [split; [exact (evp_ssubst _ _ _ _ Hp Hpl Es) | exact (substitution_mvalid _ _ _ _ Vp Es)] | exact H2] | exact Hm].
+    destruct (pop_proved_J _ _ _ Hs E1) as [Vp H1]. pose proof (pop_pat_J _ _ _ H1 E2) as H2.
+    split; [constructor; [exact (substitution_mvalid _ _ _ _ Vp Es) | exact H2] | exact Hm].
   - (* Instantiate *) destruct bs as [|n rest]; [discriminate|].
     destruct (stack st) as [|t s1] eqn:Est; [discriminate|].
     destruct (take_ids (g_instantiate_arity g) (N.to_nat n) rest s1) as [[[[ids plugs] rest'] s2]|] eqn:Et; [|discriminate].
     inversion Hs as [|t0 s0 Ht Hs1]; subst.
-    destruct (take_ids_J _ _ _ _ _ _ _ _ Hs1 Et) as [Hpl H2].
+    pose proof (take_ids_J _ _ _ _ _ _ _ _ Hs1 Et) as H2.
     destruct t as [p|p].
+    + destruct (inst g p ids plugs) as [q|] eqn:Ei; [|discriminate]. inversion E; subst. pushP.
     + destruct (inst g p ids plugs) as [q|] eqn:Ei; [|discriminate]. inversion E; subst.
-      split; [constructor; [exact (evp_inst _ _ Hpl _ _ Ht Ei) | exact H2] | exact Hm].
-    + destruct (inst g p ids plugs) as [q|] eqn:Ei; [|discriminate]. inversion E; subst.
-      destruct Ht as [Hp Vp].
-      split; [constructor; [split; [exact (evp_inst _ _ Hpl _ _ Hp Ei) | exact (instantiate_mvalid _ _ _ _ Vp Hp Ei)] | exact H2] | exact Hm].
+      split; [constructor; [exact (instantiate_mvalid _ _ _ _ Ht Ei) | exact H2] | exact Hm].
   - (* Pop *) destruct (stack st) as [|t s1] eqn:Est; [discriminate|]. inversion E; subst.
     inversion Hs; subst. split; assumption.
   - (* Save *) destruct (stack st) as [|t s1] eqn:Est; [discriminate|]. inversion E; subst. simpl.
@@ -255,18 +154,18 @@ Proof.
     split; [constructor; assumption | exact Hm].
   - (* Publish *) destruct ph.
     + destruct (pop_pat (stack st)) as [[p s1]|] eqn:E1; [|discriminate]. inversion E; subst.
-      destruct (pop_pat_J _ _ _ Hs E1) as [Hp H1].
+      pose proof (pop_pat_J _ _ _ Hs E1) as H1.
       assert (Vp: mvalid p).
       { destruct (stack st) as [|[q|q] s0] eqn:Est; simpl in E1; try discriminate. inversion E1; subst.
         eapply (Hpub eq_refl eq_refl). reflexivity. }
-      split; [exact H1 | apply Forall_app; split; [exact Hm | constructor; [split; assumption | constructor]]].
+      split; [exact H1 | apply Forall_app; split; [exact Hm | constructor; [exact Vp | constructor]]].
     + destruct (pop_pat (stack st)) as [[p s1]|] eqn:E1; [|discriminate]. inversion E; subst.
-      destruct (pop_pat_J _ _ _ Hs E1) as [Hp H1]. split; assumption.
+      pose proof (pop_pat_J _ _ _ Hs E1) as H1. split; assumption.
     + destruct (claims st) as [|c cs]; [discriminate|].
       destruct (pop_proved (stack st)) as [[p s1]|] eqn:E1; [|discriminate].
       destruct (chk _ _); [|discriminate]. inversion E; subst.
       destruct (pop_proved_J _ _ _ Hs E1) as [_ H1]. split; assumption.
-  - (* CleanMetaVar *) destruct bs as [|id r]; [discriminate|]. inversion E; subst. split; [constructor; [reflexivity|exact Hs] | exact Hm].
+  - destruct bs as [|id r]; [discriminate|]. inversion E; subst. pushP.
   - discriminate.
 Qed.
 
@@ -283,7 +182,6 @@ Hypothesis G_es_ex : g_esubst_exists_capture g = true.
 Hypothesis G_inst : g_inst_constraints g = true.
 Hypothesis G_gen : g_gen_fresh g = true.
 Hypothesis G_mp : g_mp_antecedent g = true.
-Hypothesis G_evp : g_evar_plugs_only g = true.
 Hypothesis G_pub : g_publish_claim_eq g = true.
 
 Notation J := (J).
@@ -298,7 +196,7 @@ Proof.
     simpl in Hj. destruct (step g ph op rest st) as [[rest' st1]|] eqn:Es; [|discriminate].
     apply (IH ph rest' st1 st'); [|exact E|].
     + unfold step in Es. destruct (decode_op op) as [i|] eqn:Ed; [|discriminate].
-      eapply (step_i_J g G_ss_ex G_ss_mu G_es_ex G_inst G_gen G_mp G_evp); [exact HJ | exact Es |].
+      eapply (step_i_J g G_ss_ex G_ss_mu G_es_ex G_inst G_gen G_mp); [exact HJ | exact Es |].
       intros Hph Hi p s Hst. subst i. specialize (Hj Hph). rewrite Hst in Hj. simpl in Hj.
       inversion Hj; subst. assumption.
     + intros Hph. specialize (Hj Hph). apply Forall_app in Hj. apply Hj.
@@ -324,7 +222,7 @@ Proof.
   destruct (pop_proved (stack st)) as [[p s1]|] eqn:E1; [|discriminate].
   rewrite G_pub in E. simpl in E. destruct (pat_eqb c0 p) eqn:Eq; [|discriminate]. inversion E; subst. simpl.
   apply pat_eqb_eq in Eq. subst c0.
-  destruct (pop_proved_J _ _ _ Hs E1) as [[_ Vp] _].
+  destruct (pop_proved_J _ _ _ Hs E1) as [Vp _].
   intros c Hc. destruct (HK c Hc) as [Hin|Hv]; [|right; exact Hv].
   rewrite Ec in Hin. destruct Hin as [->|Hin]; [right; exact Vp | left; exact Hin].
 Qed.
@@ -338,7 +236,7 @@ Proof.
     destruct (step g Proof op rest st) as [[rest' st1]|] eqn:Es; [|discriminate].
     unfold step in Es. destruct (decode_op op) as [i|] eqn:Ed; [|discriminate].
     apply (IH rest' st1 st'); [| |exact E].
-    + eapply (step_i_J g G_ss_ex G_ss_mu G_es_ex G_inst G_gen G_mp G_evp); [exact HJ | exact Es |]. intros Hph; discriminate.
+    + eapply (step_i_J g G_ss_ex G_ss_mu G_es_ex G_inst G_gen G_mp); [exact HJ | exact Es |]. intros Hph; discriminate.
     + eapply step_i_claims_proof; eassumption.
 Qed.
 
@@ -351,7 +249,7 @@ Proof.
   intros [Hs Hm] p Hp. unfold proved_terms in Hp. apply in_flat_map in Hp as (t & Ht & Hpt).
   assert (Htok: tok t).
   { apply in_app_or in Ht as [Ht|Ht]; [rewrite Forall_forall in Hs; apply Hs, Ht | rewrite Forall_forall in Hm; apply Hm, Ht]. }
-  destruct t as [q|q]; simpl in Hpt; [destruct Hpt|]. destruct Hpt as [->|[]]. apply Htok.
+  destruct t as [q|q]; simpl in Hpt; [destruct Hpt|]. destruct Hpt as [->|[]]. exact Htok.
 Qed.
 
 Theorem verify_sound gamma claimsb proofb st3 :
